@@ -28,6 +28,17 @@ def real_validate(schema, cfg, doc, update, normalize=False, want_validator=Fals
         return {"r": "schema-rejected", "msg": str(e)[:300]}
     except Exception as e:
         return {"r": "construct-raise", "exn": type(e).__name__, "site": innermost_cerberus_frame(e)}
+    # every second case is run on a USED validator (the same document processed once before with normalization on and
+    # the opposite update flag): what an instance processed before must not show in the outcome
+    if (len(repr(doc)) + len(repr(schema))) % 2:
+        try:
+            import copy as _copy
+            v.validate(_copy.deepcopy(doc), update=not update)
+        except Exception:
+            try:
+                v = cerberus.Validator(schema, **cfg)
+            except Exception:
+                pass
     try:
         ok = v.validate(doc, update=update, normalize=normalize)
         out = {"r": "ok", "verdict": ok, "errors": [real_error(e) for e in v._errors],
